@@ -56,6 +56,40 @@ def key_values(fn, sl: ast.AST, at: ast.AST) -> Optional[List[str]]:
     return None
 
 
+def _mapping_keys(fn, e, depth=3):
+    """string keys of a mapping expression: a dict display, a dict comprehension over a literal list of strings (`{k: ... for k in [..]}`), or a
+    local bound to one of those; None when unknown"""
+    if depth == 0:
+        return None
+    if isinstance(e, ast.Dict):
+        ks = [const_str(k) for k in e.keys]
+        return None if any(k is None for k in ks) else ks
+    if isinstance(e, ast.DictComp) and len(e.generators) == 1 and not e.generators[0].ifs and isinstance(e.generators[0].target, ast.Name) \
+            and is_name(e.key, e.generators[0].target.id):
+        it = e.generators[0].iter
+        lit = literal(it)
+        if lit is None and isinstance(it, ast.Call) and isinstance(it.func, ast.Attribute) and it.func.attr == "keys" and not it.args:
+            inner = _mapping_keys(fn, it.func.value, depth - 1)
+            lit = inner
+        if lit is None and isinstance(it, ast.Name):
+            for s_ in walk_local(fn):
+                if isinstance(s_, ast.Assign) and is_name(s_.targets[0], it.id):
+                    lit = literal(s_.value)
+        if isinstance(lit, (list, tuple)) and all(isinstance(x, str) for x in lit):
+            return list(lit)
+        return None
+    if isinstance(e, ast.Name):
+        out = None
+        for s_ in walk_local(fn):
+            if isinstance(s_, ast.Assign) and is_name(s_.targets[0], e.id):
+                ks = _mapping_keys(fn, s_.value, depth - 1)
+                if ks is None:
+                    return None
+                out = (out or []) + ks
+        return out
+    return None
+
+
 def db_accesses(fn, dbvar: str = "db"):
     """[(key, 'w'|'r', node, guard)] for db[...] subscripts and db.update(<dict literal var>)."""
     out = []
@@ -70,14 +104,9 @@ def db_accesses(fn, dbvar: str = "db"):
             for k in ks:
                 out.append((k, mode, n))
         if isinstance(n, ast.Call) and isinstance(n.func, ast.Attribute) and n.func.attr == "update" and is_name(n.func.value, dbvar) and n.args:
-            a = n.args[0]
-            lit = literal(a)
-            if isinstance(a, ast.Name):
-                for s in walk_local(fn):
-                    if isinstance(s, ast.Assign) and is_name(s.targets[0], a.id) and isinstance(s.value, ast.Dict):
-                        lit = {const_str(k): None for k in s.value.keys}
-            if isinstance(lit, dict):
-                for k in lit:
+            ks = _mapping_keys(fn, n.args[0])
+            if ks is not None:
+                for k in ks:
                     out.append((k, "w", n))
             else:
                 unknown.append(norm(n))
